@@ -371,6 +371,26 @@ func runC08(e *Env) Outcome {
 	fam := t.Intn("family", 8)
 	var litTemplate func() interface{}
 	switch {
+	case fam == 7 && f == gen.CTE && t.Chance("separators-only", 1, 3):
+		// a container holding nothing but separators (comments, or the
+		// whitespace between characters the lexer rejects): a few hundred
+		// bytes that give the parser's prediction nothing to decide on
+		k := []int{10, 30, 60, 100}[t.Intn("sep-count", 4)]
+		open, close := [][2]string{{"[", "]"}, {"{", "}"}, {"[[", "]]"}, {"@a<", ">"}}[t.Intn("sep-container", 4)][0], ""
+		switch open {
+		case "[":
+			close = "]"
+		case "{":
+			close = "}"
+		case "[[":
+			close = "]]"
+		default:
+			close = ">"
+		}
+		sep := []string{"/**/ ", "/* c */\n", "// c\n", "? "}[t.Intn("sep-kind", 4)]
+		doc = []byte("c0\n" + open + strings.Repeat(sep, k) + close)
+		sc.Family = fmt.Sprintf("container %s%s holding only %d separators %q", open, close, k, sep)
+		e.Count("fault:separators-only-container", 1)
 	case fam == 7 && f == gen.CTE:
 		var desc, tn string
 		doc, desc, tn, litTemplate = adversarialLiteral(t)
